@@ -712,9 +712,16 @@ func runScenario(sc *scenario, scratch string) (*vtrace.Trace, error) {
 	for _, hn := range []string{hostA, hostB} {
 		hosts = append(hosts, config.Host{Name: hn, Hostname: hn, TLS: config.TLSDisabled, ReqConcurrent: conc})
 	}
+	regOpts := []reg.Opts{reg.WithHTTPClient(&http.Client{Transport: w.net}), reg.WithDelay(time.Millisecond, 4*time.Millisecond)}
+	if sc.Cache != 0 {
+		regOpts = append(regOpts, reg.WithCache(5*time.Minute, 500))
+	}
+	if sc.Chunked != 0 {
+		regOpts = append(regOpts, reg.WithBlobSize(96, 128))
+	}
 	rc := regclient.New(
 		regclient.WithConfigHost(hosts...),
-		regclient.WithRegOpts(reg.WithHTTPClient(&http.Client{Transport: w.net}), reg.WithDelay(time.Millisecond, 4*time.Millisecond)),
+		regclient.WithRegOpts(regOpts...),
 		regclient.WithSlog(slog.New(slog.NewTextHandler(io.Discard, nil))),
 	)
 	rSrc, err := ref.New(w.refSrc)
@@ -760,7 +767,7 @@ func runScenario(sc *scenario, scratch string) (*vtrace.Trace, error) {
 	if len(plats) > 0 {
 		opts = append(opts, regclient.ImageWithPlatforms(strings.Split(sc.Opts.Platforms, ",")))
 	}
-	if w.tgtIsDir || sc.CancelCB != nil {
+	if w.tgtIsDir || sc.CancelCB != nil || sc.Callback != 0 {
 		// the progress callback runs inside the copy's goroutines: further observation points of a
 		// layout target (the only ones when the source is a layout as well), and a place to cancel
 		// "after the blob has been fetched, before it is stored"
